@@ -1,9 +1,10 @@
 SPECIFICATION Spec
 INVARIANTS TypeOK CleanedStaysClean
-PROPERTIES CleanRemovesData CleanNothingElse CleanKeepsNonEmptyDirs ModeOnlyMode NoOpWhenSame Records NoCommandCreatesData AfterModeCmdItReads CleanIdempotent EnvShowsTheFile
+PROPERTIES CleanRemovesData CleanNothingElse CleanKeepsNonEmptyDirs ModeOnlyMode NoOpWhenSame Records NoCommandCreatesData AfterModeCmdItReads CleanIdempotent EnvShowsTheFile RefusedChangesNothing
 CHECK_DEADLOCK FALSE
 CONSTANTS
   Trees <- MCTrees
   ModeFiles <- MCModeFiles
   Today = 20000
   MaxCmds = 3
+  BadCmds = {"clean all", "purge"}
